@@ -222,6 +222,22 @@ func runProperty(prop, tier string, timeout int) *checkResult {
 				specs.Funcs[mk] = comb
 			}
 		}
+		// closures / functions declared to implement a funcspec are verified against it as well
+		for k, fc := range specs.Funcs {
+			if fc.Impl == "" || fc.implMerged {
+				continue
+			}
+			fs := specs.FuncSpecs[fc.Impl]
+			if fs == nil {
+				res.loadErr = append(res.loadErr, k+": unknown funcspec "+fc.Impl)
+				continue
+			}
+			fc.implMerged = true
+			fc.Names = fs.Names
+			fc.ResNames = fs.ResNames
+			fc.Clauses = append(append([]*Clause{}, fs.Clauses...), fc.Clauses...)
+			fc.Facets = append(fc.Facets, fs.Facets...)
+		}
 		keys = keys[:0]
 		for k, fc := range specs.Funcs {
 			if contractMentions(fc, prop) && !fc.Trusted {
